@@ -2,6 +2,7 @@ import Driver.Codec
 import Txtpp.Model.Text
 import Txtpp.Model.Tag
 import Txtpp.Model.Project
+import Txtpp.Model.Safe
 import Txtpp.Model.CoordSim
 open Driver Txt
 
@@ -183,6 +184,19 @@ def handle (line : String) : String :=
         | .hasDeps deps => "deps:" ++ ",".intercalate (deps.map hex)
       s!"{o} {showFS fs'}"
     | _, _, _, _, _ => "bad-field"
+  | ["safe", mode, base, tree, cmds] =>
+    -- on how many txtpp sources of the tree the side condition of the pass-level theorems (C06/C08/C09) holds
+    match modeOf mode, unhex base, parseTree (splitList tree), parseCmds (splitList cmds) with
+    | some mode, some base, some fs, some cmds =>
+      let cfg : Cfg := { mode := mode, trailing := true, recursive := false, baseAbs := base, cmds := cmds }
+      let srcs := (fs.files.map (·.1)).filter (fun p => (outputPath p).isSome)
+      let rs := srcs.map (fun p => (p, srcSafeB cfg fs p))
+      let ok := (rs.filter (fun r => r.2 == some true)).length
+      let bad := rs.filter (fun r => r.2 == some false)
+      let skip := (rs.filter (fun r => r.2 == none)).length
+      let badNames := if bad.isEmpty then "-" else ",".intercalate (bad.map (fun r => hex (joinPath r.1)))
+      s!"safe={ok} unsafe={bad.length} skip={skip} {badNames}"
+    | _, _, _, _ => "bad-field"
   | ["coordscan", files, dirs, world, dirworld, choices] =>
     match parseNats files, parseNats dirs, parseWorld (splitList world), parseDirWorld (splitList dirworld), parseNats choices with
     | some files, some dirs, some wl, some dl, some choices =>
